@@ -289,8 +289,35 @@ func init() {
 		p := fido.MetadataBLOBPayload{LegalHeader: "legal", No: 1 + r.Intn(100), NextUpdate: "2030-01-01",
 			Entries: []fido.MetadataBLOBPayloadEntry{{AAGUID: ag, TimeOfLastStatusChange: "2024-01-01", MetadataStatement: fido.MetadataStatement{AAGUID: ag, Description: "verif authenticator"}}}}
 		b, _ := json.Marshal(p)
+		if r.P(1, 2) {
+			// written by hand, as the metadata service writes it: numbers over the whole range of their IDL types (authenticatorVersion is an
+			// unsigned long: vendors pack firmware versions into it), further members the structure does not know
+			av := pick(r, []uint64{0, 2, 65535, 65536, 328707, 1 << 24, 1<<31 - 1, 1 << 31, 1<<32 - 1})
+			no := pick(r, []uint64{1, 65536, 1<<31 - 1, 1 << 31, 1<<32 - 1})
+			b = []byte(fmt.Sprintf(`{"legalHeader":"legal","no":%d,"nextUpdate":"2030-01-01","entries":[{"aaguid":%q,"metadataStatement":{"legalHeader":"l","aaguid":%q,`+
+				`"description":"verif authenticator","authenticatorVersion":%d,"protocolFamily":"fido2","schema":3,"upv":[{"major":1,"minor":%d}],"authenticationAlgorithms":["secp256r1_ecdsa_sha256_raw"],`+
+				`"publicKeyAlgAndEncodings":["cose"],"attestationTypes":["basic_full"],"cryptoStrength":%d,"futureMember":{"a":[1,2,3]}},"statusReports":[{"status":"FIDO_CERTIFIED_L1","effectiveDate":"2024-01-01","certificationPolicyVersion":"1.3.7"}],`+
+				`"timeOfLastStatusChange":"2024-01-01"}]}`, no, ag.String(), ag.String(), av, pick(r, []int{0, 1, 255, 65535}), pick(r, []int{0, 128, 65535, 70000})))
+		}
 		return b
 	}
+	// a compact JWS assembled by hand: the protected header's JSON text may be laid out in any way (the signature is over its base64url form)
+	handJWS := func(r *RNG, k *KeyPair, payload []byte, chain [][]byte) string {
+		x5c := []string{}
+		for _, d := range chain {
+			x5c = append(x5c, stdB64(d))
+		}
+		alg := jwsAlgOf(r, k)
+		x5cText, _ := json.Marshal(x5c)
+		hdr := pick(r, []string{
+			fmt.Sprintf("{ \"alg\": %q, \"x5c\": %s }", alg, x5cText),
+			fmt.Sprintf("{\n  \"alg\": %q,\n  \"x5c\": %s\n}", alg, x5cText),
+			fmt.Sprintf(" {\"x5c\":%s,\"typ\":\"JWT\",\"alg\":%q}\n", x5cText, alg),
+			fmt.Sprintf("\t{\"alg\":%q ,\"x5c\" :%s}", alg, x5cText)})
+		input := b64u([]byte(hdr)) + "." + b64u(payload)
+		return input + "." + b64u(jwsSign(k, alg, []byte(input)))
+	}
+	_ = handJWS
 	register("C15",
 		Stream{"blob.deviations", func(c *Ctx) {
 			r := c.R
@@ -336,6 +363,9 @@ func init() {
 						}
 					}
 					jws := makeJWS(signKey, blobPayload(r), chain, dv != "chain.missing")
+					if (dv == "" || strings.HasPrefix(dv, "default.") || strings.HasPrefix(dv, "pool.")) && r.Bool() {
+						jws = handJWS(r, signKey, blobPayload(r), chain)
+					}
 					parts := strings.Split(jws, ".")
 					switch dv {
 					case "payload.altered":
